@@ -42,8 +42,12 @@ HARNESSES = [
     Harness('c05_import_result_list_of_strings_len1', 'value.import_result_list_of_strings_len1', G.replace('export trampoline(s)', 'import wrapper') + 'list<string> RETURNED by an import, 1 element(s)', bounded=HEAP.replace('export direction only', 'import direction')),
     Harness('c05_import_result_list_of_strings_len2', 'value.import_result_list_of_strings_len2', G.replace('export trampoline(s)', 'import wrapper') + 'list<string> RETURNED by an import, 2 element(s)', bounded=HEAP.replace('export direction only', 'import direction')),
 ]
-# nothing is thorough-only since list lengths are fixed per harness
+# thorough tier: three elements each way for the nested lists
 THOROUGH = [
+    Harness('c05_list_of_strings_result_len3', 'value.list_of_strings_result_len3', G + 'list<string> (element-wise list), 3 elements returned', bounded=HEAP.replace('0, 1 or 2', '3')),
+    Harness('c05_list_of_strings_param_len3', 'value.list_of_strings_param_len3', G + 'list<string> (element-wise list), 3 elements sent', bounded=HEAP.replace('0, 1 or 2', '3')),
+    Harness('c05_list_of_mixed_records_result_len3', 'value.list_of_mixed_records_result_len3', G + 'list<record { u64, string }>, 3 elements returned', bounded=HEAP.replace('0, 1 or 2', '3')),
+    Harness('c05_list_of_mixed_records_param_len3', 'value.list_of_mixed_records_param_len3', G + 'list<record { u64, string }>, 3 elements sent', bounded=HEAP.replace('0, 1 or 2', '3')),
 ]
 ASSUME = ['PARTIAL and BOUNDED: the claim is about the bindings the real generator produces for ONE probe world (kani/rustgen_val/probe.wit), in the export '
           'direction (host -> lift -> user function -> lower -> host); imports use the same emit arms but their glue is not driven here',
